@@ -231,6 +231,11 @@ func runCheck(repo, root, prop, tier string, rebase, verbose bool) int {
 	var runs []*unitRun
 	var toolErrs []string
 	d := NewDischarger(timeout, thorough)
+	if rebase && os.Getenv("GOVC_FAST_REBASE") != "" {
+		// claim only what discharges quickly on the primary solver (large sweeps)
+		d = NewDischarger(2500, false)
+		d.NoRace = true
+	}
 	multiTags := len(cfg.Tags) > 1
 	skipSet, _ := loadBaseline(filepath.Join(root, "baseline", prop+".skip"))
 	if os.Getenv("GOVC_CLAIM_ALL") == "" && !rebase && !thorough && len(skipSet) > 0 {
